@@ -43,7 +43,7 @@ ASSUMPTIONS = [
     "documented export subset = docstring of modelx.export_model: int/str/float references as literals, other "
     "values pickled, object-valued (cells / space) references; NOT generated because documented as unsupported: "
     "relative (auto/relative-mode, target inside the parametrised tree) references in ItemSpaces, IOSpecs other "
-    "than PandasData, arithmetic coercion of parameterless cells",
+    "than PandasData (PandasData csv / excel references ARE generated), arithmetic coercion of parameterless cells",
     "NOT generated because undocumented either way (left out, see report): cells input values, parameter formulas "
     "returning {'refs':..}/{'base':..}, module-valued references, subscription of a cells through an attribute "
     "path (_space.f[x], T.f[x]), _space._name inside ItemSpaces (auto-generated names), allow_none",
@@ -79,6 +79,7 @@ STRUCTS = {
     "item1":     {"spaces": [("P", [], "i")], "focus": "P", "pnames": ["i"]},
     "item1d":    {"spaces": [("P", [], "i")], "focus": "P", "pnames": ["i"], "pdefaults": {"P": [("i", "0")]}},
     "item2":     {"spaces": [("P", [], "i, j=1")], "focus": "P", "pnames": ["i", "j"]},
+    "item2r":    {"spaces": [("P", [], "i, j")], "focus": "P", "pnames": ["i", "j"]},
     "itemnest":  {"spaces": [("P", [], "i"), ("P.Q", [], "j")], "focus": "P.Q", "pnames": ["i", "j"]},
     "itemchild": {"spaces": [("P", [], "i"), ("P.T", [], None)], "focus": "P.T", "pnames": ["i"]},
     "itembase":  {"spaces": [("A", [], None), ("P", ["A"], "i")], "focus": "A", "pnames": [], "item": True,
@@ -86,12 +87,13 @@ STRUCTS = {
     "subitem":   {"spaces": [("A", [], None), ("A.P", [], "i")], "focus": "A.P", "pnames": ["i"]},
 }
 STRUCT_ORDER = ["static", "nested", "nested3", "inh1", "inh1o", "inh2", "inh3", "item1", "item1d", "item2",
-                "itemnest", "itemchild", "itembase", "subitem"]
+                "item2r", "itemnest", "itemchild", "itembase", "subitem"]
 # simpler structures to try while shrinking
 SIMPLER = {
     "nested": ["static"], "nested3": ["static", "nested"], "inh1": ["static"], "inh1o": ["static", "inh1"],
     "inh2": ["static", "inh1"], "inh3": ["static", "inh1", "inh1o"], "item1": ["static"],
     "item1d": ["static", "item1"], "item2": ["static", "item1", "item1d"],
+    "item2r": ["static", "item1", "item1d"],
     "itemnest": ["static", "item1", "item1d", "nested"], "itemchild": ["static", "item1", "item1d", "nested"],
     "itembase": ["static", "inh1", "item1", "item1d"], "subitem": ["static", "item1", "item1d", "nested"],
     "static": [],
@@ -130,10 +132,18 @@ ATOMS = {
     "star":      ("h(*[{v}], **{{'y': 2}})", ["h"], _any),
     "scalar":    ("k() + {v}", ["k"], _any),
     "rec":       ("(g({v} - 1) + f({v}) if {v} > 0 else 0)", ["f"], _any),
-    "ref":       ("r + {v}", ["f"], _any),
+    "ref":       ("r + {v}", ["r"], _any),
     "strref":    ("len(s) + {v}", ["s"], _any),
     "fltref":    ("int(q * 2) + {v}", ["q"], _any),
+    "litmix":    ("(5 if N0 is None else 0) + int(B1) + NEG + int(FS * 1e8) + {v}", ["N0", "B1", "NEG", "FS"], _any),
+    "tupref":    ("TP[{v} % 2] + len(TP)", ["TP"], _any),
+    "longstr":   ("len(LS) + LS.count('w') + {v}", ["LS"], _any),
+    "infref":    ("(1 if QI > 10 ** 9 else 0) + {v}", ["QI"], _any),
+    "nanref":    ("(1 if QN != QN else 0) + {v}", ["QN"], _any),
     "bref":      ("max + {v}", ["max"], _any),
+    "bmref":     ("sum + {v}", ["sum"], _any),
+    "bchild":    ("filter.f({v})", ["filter"], _any),
+    "bparam":    ("RB[1].f({v})", ["RB"], _any),
     "bfun":      ("max({v}, 1) + len(str({v}))", [], _any),
     "bcell":     ("min({v})", ["min"], _any),
     "dict":      ("D[{v}]", ["D"], _any),
@@ -151,7 +161,6 @@ ATOMS = {
     "itemcall":  ("R[1].f({v}) + R(2).f({v})", ["R"], _any),
     "itemdyn":   ("R[{v}].f(1)", ["R"], _any),
     "xref":      ("X({v})", ["X"], _any),
-    "xsub":      ("X[{v}]", ["X"], _any),
     "xabs":      ("XA({v})", ["XA"], _any),
     "spref":     ("SP.f({v})", ["SP"], _any),
     "spabs":     ("SPA.f({v})", ["SPA"], _any),
@@ -160,7 +169,9 @@ ATOMS = {
     "shared":    ("(1 if L is L2 else 0) + L2[{v}]", ["L", "L2"], _any),
     "fstr":      ("int(f'{{f({v})}}')", ["f"], _any),
     "walrus":    ("(w1 := f({v})) + w1", ["f"], _any),
-    "cond":      ("(f({v}) if {v} else r)", ["f"], _any),
+    "cond":      ("(f({v}) if {v} else r)", ["f", "r"], _any),
+    "pdseries":  ("int(PS[{v}]) + len(PS)", ["PS"], lambda S: S in ("static", "inh1", "item1", "nested")),
+    "pdframe":   ("int(PD['b'][{v}]) + len(PD)", ["PD"], lambda S: S in ("static", "inh1", "item1", "nested")),
     "param":     ("i * 7 + {v}", [], _params(1)),
     "param2":    ("i * 7 + j * 3 + {v}", [], _params(2)),
 }
@@ -195,6 +206,8 @@ EXPR_CTX = {
     "shadowcomp":  lambda E: "sum([f for f in range(x + 1)]) + %s" % E("x"),
     "shadowcompr": lambda E: "sum([r for r in range(x + 1)]) + %s" % E("x"),
     "shadowlam":   lambda E: "(lambda f: f + 1)(x) + %s" % E("x"),
+    "lambdabuiltin": lambda E: "(lambda max: max + 1)(%s)" % E("x"),
+    "compwalrus":  lambda E: "sum([(w2 := %s) + w2 - w2 for n1 in range(x + 1)])" % E("n1"),
     "fstring":     lambda E: "int(f'{%s}')" % E("x").replace("'", '"'),
     "ternary":     lambda E: "%s if x else %s" % (E("x"), E("0")),
     "tuple":       lambda E: "(%s, [x, %s], {x: %s})" % (E("x"), E("x"), E("x")),
@@ -208,7 +221,13 @@ STMT_CTX = {
     "for":         lambda E: ["t1 = 0", "for n1 in range(x + 1):", "    t1 += %s" % E("n1"), "return t1"],
     "while":       lambda E: ["t1 = 0", "n1 = 0", "while n1 <= x:", "    t1 += %s" % E("n1"), "    n1 += 1",
                               "return t1"],
-    "try":         lambda E: ["try:", "    return %s" % E("x"), "except ZeroDivisionError:", "    return -1"],
+    "try":         lambda E: ["try:", "    return %s" % E("x"), "except ZeroDivisionError as e1:",
+                              "    return len(str(e1))", "finally:", "    pass"],
+    "shadowbuiltin": lambda E: ["len = %s" % E("x"), "return len + 1"],
+    "paramshadow": lambda E: ["return %s + y" % E("x")],           # signature g(x, y=7): y is also a ref name
+    "shadowdefparam": lambda E: ["def inner(f):", "    return f + 1", "return inner(x) + %s" % E("x")],
+    "shadowdefname": lambda E: ["def z(p1):", "    return p1 + 1", "return z(%s)" % E("x")],
+    "importas":    lambda E: ["import math as m1", "return m1.floor(%s)" % E("x")],
     "nesteddef":   lambda E: ["def inner(p1):", "    return %s" % E("p1"), "return inner(x)"],
     "nesteddef2":  lambda E: ["def outer(p1):", "    def inner(p2):", "        return %s + p1 - p1" % E("p2"),
                               "    return inner(p1)", "return outer(x)"],
@@ -229,8 +248,13 @@ STMT_CTX = {
     "with":        lambda E: ["import contextlib", "with contextlib.nullcontext():", "    return %s" % E("x")],
 }
 STMT_ORDER = list(STMT_CTX)
-CTX_NEEDS = {"shadowlocal": ["z"], "shadowcomp": ["f"], "shadowcompr": ["f"], "shadowlam": ["f"]}
-CTX_SIG = {"defaultarg": "x, w2=2"}
+CTX_NEEDS = {"shadowlocal": ["z"], "shadowcomp": ["f"], "shadowcompr": ["r"], "shadowlam": ["f"],
+             "paramshadow": ["y"], "shadowdefparam": ["f"], "shadowdefname": ["z"]}
+# contexts that exercise the same translation step: while shrinking, the first member is tried for the others
+CTX_FAMILY = {"genthencomp": ["lamthencomp"], "defthencomp": ["lamthencomp"], "compthendef": ["compthenlam"],
+              "nesteddef2": ["nesteddef"], "compincomp": ["listcomp"], "nestedcomp": ["listcomp"],
+              "lamcomp": ["listcomp", "lambda"], "complam": ["listcomp", "lambda"]}
+CTX_SIG = {"defaultarg": "x, w2=2", "paramshadow": "x, y=7"}
 CORE_CTX = [("direct", "lambda"), ("listcomp", "lambda"), ("nesteddef", "def")]
 
 
@@ -246,13 +270,25 @@ FLAGS = ["c", "g", "a", "s"]    # all cached / g uncached / all uncached / all b
 # ----------------------------------------------------------------------------------------------
 # expansion: coordinates -> explicit model description
 
+_COMPILES = {}
+
+
 def valid(case):
     S, C, A, F = case["S"], case["C"], case["A"], case["F"]
     if S not in STRUCTS or A not in ATOMS or (C not in EXPR_CTX and C not in STMT_CTX):
         return False
     if F not in forms_of(C) or case.get("V", "c") not in FLAGS:
         return False
-    return bool(ATOMS[A][2](S))
+    if not ATOMS[A][2](S):
+        return False
+    k = (S, C, A, F)
+    if k not in _COMPILES:
+        try:                                    # the grammar is: syntactically valid Python only
+            compile(g_source(case), "<g>", "exec")
+            _COMPILES[k] = True
+        except SyntaxError:
+            _COMPILES[k] = False
+    return _COMPILES[k]
 
 
 def g_source(case):
@@ -300,9 +336,11 @@ def expand(case):
             return
         done.add(n)
         fs = spaces[focus]
-        if n == "f":
-            spaces[fhome]["cells"].append(["f", "lambda x: 10 * x + r" + psuffix, True])
+        if n == "r":
             spaces[fhome]["refs"].append(["r", "val", "3"])
+        elif n == "f":
+            need("r")
+            spaces[fhome]["cells"].append(["f", "lambda x: 10 * x + r" + psuffix, True])
         elif n == "h":
             need("f")
             fs["cells"].append(["h", "lambda x, y=1: f(x) * 2 + y", True])
@@ -323,6 +361,22 @@ def expand(case):
             fs["refs"].append(["q", "val", "2.75"])
         elif n == "max":
             fs["refs"].append(["max", "val", "100"])
+        elif n in ("N0", "B1", "NEG", "FS", "TP", "LS", "QI", "QN"):
+            lit = {"N0": "None", "B1": "True", "NEG": "-3", "FS": "2.5e-07", "TP": "(4, 5, 6)",
+                   "LS": repr("word " * 40), "QI": "inf", "QN": "nan"}[n]
+            fs["refs"].append([n, "val", lit])
+        elif n == "PS":
+            fs["refs"].append(["PS", "pandas", "series", "data/ser.csv", "csv"])
+        elif n == "PD":
+            fs["refs"].append(["PD", "pandas", "frame", "data/df.xlsx", "excel"])
+        elif n == "sum":
+            mrefs.append(["sum", "9"])
+        elif n == "filter":
+            add_space(focus + ".filter", [], None)
+            spaces[focus + ".filter"]["cells"].append(["f", "lambda x: x + 60" + psuffix, True])
+        elif n == "RB":
+            add_space(focus + ".RB", [], "max")
+            spaces[focus + ".RB"]["cells"].append(["f", "lambda x: x + max" + psuffix, True])
         elif n == "D":
             fs["refs"].append(["D", "val", "{0: 10, 1: 11, 2: 12, 3: 13}"])
         elif n == "L":
@@ -367,7 +421,16 @@ def expand(case):
             is_g = (sp["path"] == focus and c[0] == "g")
             if V == "a" or (V == "g" and is_g) or (V == "s" and not is_g):
                 c[2] = False
-    desc = {"mrefs": mrefs, "spaces": [spaces[p] for p in order], "focus": focus}
+    # members the formula under test does not need (removable while shrinking)
+    needed = set()
+    todo = list(ATOMS[A][1]) + list(CTX_NEEDS.get(C, []))
+    deps = {"f": ["r"], "h": ["f"], "k": ["f"], "XI": ["f"], "XIA": ["f"], "L2": ["L"]}
+    while todo:
+        n = todo.pop()
+        if n not in needed:
+            needed.add(n)
+            todo.extend(deps.get(n, []))
+    desc = {"mrefs": mrefs, "spaces": [spaces[p] for p in order], "focus": focus, "needed": sorted(needed)}
     for d in case.get("drop", []):
         apply_drop(desc, d)
     return desc
@@ -377,17 +440,27 @@ def droppable(desc):
     """Identifiers of removable members: "space:<path>", "cells:<path>:<name>", "ref:<path>:<name>", "mref:<name>"."""
     out = []
     focus = desc["focus"]
+    needed = set(desc.get("needed", []))
+    needed_spaces = set()
+    if needed & {"X", "XA", "SP", "SPA"}:
+        needed_spaces.add("Z")
+    if "T1" in needed:
+        needed_spaces.add(focus + ".T1")
+    for n in ("R", "RB", "filter"):
+        if n in needed:
+            needed_spaces.add(focus + "." + n)
     for sp in desc["spaces"]:
         p = sp["path"]
-        if not (focus == p or focus.startswith(p + ".")):
+        if not (focus == p or focus.startswith(p + ".")) and p not in needed_spaces:
             out.append("space:" + p)
+        if p in needed_spaces:
+            continue
         for c in sp["cells"]:
-            if not (p == focus and c[0] == "g"):
+            if not (p == focus and c[0] == "g") and c[0] not in needed:
                 out.append("cells:%s:%s" % (p, c[0]))
         for r in sp["refs"]:
-            out.append("ref:%s:%s" % (p, r[0]))
-    for n, _ in desc["mrefs"]:
-        out.append("mref:" + n)
+            if r[0] not in needed:
+                out.append("ref:%s:%s" % (p, r[0]))
     return out
 
 
@@ -418,6 +491,26 @@ def apply_drop(desc, d):
 # ----------------------------------------------------------------------------------------------
 # building the model (public API only) and the query list
 
+def _lit(src):
+    """Value of a reference literal of the description (python literal, or inf / -inf / nan)."""
+    if src in ("inf", "-inf", "nan"):
+        return float(src)
+    return ast.literal_eval(src)
+
+
+def _lit_src(src):
+    return "float(%r)" % src if src in ("inf", "-inf", "nan") else src
+
+
+PANDAS_SRC = {"series": "pd.Series([10, 11, 12, 13], index=[0, 1, 2, 3], name='ser')",
+              "frame": "pd.DataFrame({'a': [1, 2, 3, 4], 'b': [5, 6, 7, 8]})"}
+
+
+def _pandas_value(kind):
+    import pandas as pd
+    return eval(PANDAS_SRC[kind], {"pd": pd})
+
+
 def _get(m, path):
     o = m
     for n in path.split("."):
@@ -429,7 +522,7 @@ def build(desc):
     reset_world()
     m = mx.new_model("M")
     for n, lit in desc["mrefs"]:
-        setattr(m, n, ast.literal_eval(lit))
+        setattr(m, n, _lit(lit))
     for sp in desc["spaces"]:
         path = sp["path"]
         parent = _get(m, path.rsplit(".", 1)[0]) if "." in path else m
@@ -442,14 +535,21 @@ def build(desc):
     for sp in desc["spaces"]:
         s = _get(m, sp["path"])
         for name, src, cached in sp["cells"]:
-            s.new_cells(name, formula=src, is_cached=bool(cached))
+            if name in s.cells:                  # override of an inherited cells
+                s.cells[name].set_formula(src)
+                if not cached:
+                    s.cells[name].is_cached = False
+            else:
+                s.new_cells(name, formula=src, is_cached=bool(cached))
     for sp in desc["spaces"]:
         s = _get(m, sp["path"])
         for r in sp["refs"]:
             if r[1] == "val":
-                s.set_ref(r[0], ast.literal_eval(r[2]), "auto")
+                s.set_ref(r[0], _lit(r[2]), "auto")
             elif r[1] == "same":
                 s.set_ref(r[0], s.refs[r[2]], "auto")
+            elif r[1] == "pandas":               # PandasData IOSpec (documented as supported)
+                s.new_pandas(r[0], r[3], _pandas_value(r[2]), file_type=r[4])
             else:
                 s.set_ref(r[0], _get(m, r[2]), r[3])
     return m
@@ -464,6 +564,7 @@ def _nparams(src):
 
 INST1 = ["[1]", "(2)"]
 INST2 = ["[1]", "(2)", "[1, 2]", "(2, j=2)"]
+INST2R = ["[1, 2]", "(2, 1)", "(1, j=1)"]
 
 
 def queries(desc):
@@ -492,9 +593,8 @@ def queries(desc):
                 base = e + "." + parts[k]
                 nxt.append(base)
                 if sp["params"]:
-                    for inst in (INST2 if "," in sp["params"] else INST1):
-                        if inst == "(2, j=2)" and "j" not in sp["params"]:
-                            continue
+                    prm = sp["params"]
+                    for inst in (INST2 if "=" in prm else INST2R if "," in prm else INST1):
                         nxt.append(base + inst)
             exprs = nxt
         return exprs
@@ -810,7 +910,9 @@ def run_item(item, tier):
         fps.add(fp)
         kept.append(v)
     return {"counts": counts, "outcomes": sorted(outcomes), "violations": kept, "samples": samples,
-            "extra": {"live_atoms": sorted(live["atoms"]), "live_structures": sorted(live["structures"]),
+            "extra": {"live_atoms_1": sorted(a for a in live["atoms"] if ATOM_ORDER.index(a) % 2 == 0),
+                      "live_atoms_2": sorted(a for a in live["atoms"] if ATOM_ORDER.index(a) % 2 == 1),
+                      "live_structures": sorted(live["structures"]),
                       "live_contexts_expr": sorted(c for c in live["contexts"] if c.split("/")[0] in EXPR_CTX),
                       "live_contexts_stmt": sorted(c for c in live["contexts"] if c.split("/")[0] in STMT_CTX),
                       "live_flags": sorted(live["flags"])}}
@@ -819,7 +921,21 @@ def run_item(item, tier):
 # ----------------------------------------------------------------------------------------------
 # replay / shrinking / script
 
+_CACHE = {}
+
+
 def check_case(case):
+    """Re-execute one program (deterministic, therefore memoised per process: shrinking revisits the same
+    few small programs again and again)."""
+    key = json.dumps(case, sort_keys=True)
+    if key not in _CACHE:
+        if len(_CACHE) > 5000:
+            _CACHE.clear()
+        _CACHE[key] = _check_case(case)
+    return json.loads(json.dumps(_CACHE[key]))
+
+
+def _check_case(case):
     case = dict(case)
     case.setdefault("V", "c")
     cases = [case]
@@ -854,6 +970,8 @@ def shrink_candidates(case):
             cand(V="g")
     for S2 in SIMPLER[S]:
         cand(S=S2)
+    for C2 in CTX_FAMILY.get(C, []):
+        cand(C=C2, F="lambda" if C2 in EXPR_CTX else "def")
     if C != "direct":
         cand(C="direct", F="lambda")
         cand(C="direct", F=F)
@@ -881,7 +999,7 @@ def script(case):
          "import modelx as mx",
          "m = mx.new_model('M')"]
     for n, lit in desc["mrefs"]:
-        L.append("m.%s = %s" % (n, lit))
+        L.append("m.%s = %s" % (n, _lit_src(lit)))
     for sp in desc["spaces"]:
         path = sp["path"]
         parent = "m." + path.rsplit(".", 1)[0] if "." in path else "m"
@@ -891,15 +1009,31 @@ def script(case):
         if sp["params"]:
             args.append("formula=%r" % ("lambda %s: None" % sp["params"]))
         L.append("%s.new_space(%s)" % (parent, ", ".join(args)))
+    overrides = any(name in [c[0] for b in sp["bases"] for sb in desc["spaces"] if sb["path"] == b
+                             for c in sb["cells"]] for sp in desc["spaces"] for name, _, _ in sp["cells"])
+    if overrides:
+        L += ["def define(space, name, src, cached):",
+              "    if name in space.cells:      # override an inherited cells",
+              "        space.cells[name].set_formula(src)",
+              "        space.cells[name].is_cached = cached",
+              "    else:",
+              "        space.new_cells(name, formula=src, is_cached=cached)"]
     for sp in desc["spaces"]:
         for name, src, cached in sp["cells"]:
-            L.append("m.%s.new_cells(%r, formula=%r, is_cached=%r)" % (sp["path"], name, src, bool(cached)))
+            if overrides:
+                L.append("define(m.%s, %r, %r, %r)" % (sp["path"], name, src, bool(cached)))
+            else:
+                L.append("m.%s.new_cells(%r, formula=%r, is_cached=%r)" % (sp["path"], name, src, bool(cached)))
     for sp in desc["spaces"]:
         for r in sp["refs"]:
             if r[1] == "val":
-                L.append("m.%s.set_ref(%r, %s, 'auto')" % (sp["path"], r[0], r[2]))
+                L.append("m.%s.set_ref(%r, %s, 'auto')" % (sp["path"], r[0], _lit_src(r[2])))
             elif r[1] == "same":
                 L.append("m.%s.set_ref(%r, m.%s.refs[%r], 'auto')" % (sp["path"], r[0], sp["path"], r[2]))
+            elif r[1] == "pandas":
+                L.append("import pandas as pd")
+                L.append("m.%s.new_pandas(%r, %r, %s, file_type=%r)" % (sp["path"], r[0], r[3], PANDAS_SRC[r[2]],
+                                                                      r[4]))
             else:
                 L.append("m.%s.set_ref(%r, m.%s, %r)" % (sp["path"], r[0], r[2], r[3]))
     L += ["root = tempfile.mkdtemp()",
@@ -960,7 +1094,7 @@ def vacuity(agg, tier):
     if c.get("queries_on_item_spaces", 0) < 100:
         return "too few comparisons inside ItemSpaces"
     used_atoms = {b["A"] for b, _ in progs}
-    dead = sorted(used_atoms - set(ex.get("live_atoms", [])))
+    dead = sorted(used_atoms - set(ex.get("live_atoms_1", [])) - set(ex.get("live_atoms_2", [])))
     if dead:
         return "atoms whose formula never returns a value on the model: %s" % dead
     used_s = {b["S"] for b, _ in progs}
